@@ -8,6 +8,7 @@ mod myresp;
 mod conn;
 
 mod c04;
+mod c05;
 mod c15;
 
 #[global_allocator]
@@ -26,6 +27,8 @@ fn main() {
         "noop" => {}
         "c04-pipeline" => c04::pipeline_leg(&args),
         "c04-malformed" => c04::malformed_leg(&args),
+        "c05-txn" => c05::txn_leg(&args),
+        "c05-atomic" => c05::atomic_leg(&args),
         "c15-parse" => c15::parse_leg(&args),
         "c15-frag" => c15::frag_leg(&args),
         "c15-reply" => c15::reply_leg(&args),
